@@ -6,7 +6,9 @@
 (* selected read-only (UIDs, permanent flags, stored recent bits = what    *)
 (* the next read-write session would be given) and of the backend-read-    *)
 (* only mailbox "RO".  Other sessions only observe (FETCH without \Seen,   *)
-(* NOOP, SEARCH, IDLE).                                                    *)
+(* NOOP, SEARCH, IDLE).  On the maildir backend the dump is read from the  *)
+(* directory and dovecot-uidlist: "flags" carries the info letters and the *)
+(* file size, the recent bit is "file in new/", row 0 is the UIDVALIDITY.  *)
 (*                                                                         *)
 (*  C12_Unchanged     every dump equals the baseline dump of that mailbox  *)
 (*  C12_RecentConsumed  a message delivered into the examined mailbox      *)
